@@ -187,7 +187,7 @@ func c09Child(seedStr, thoroughStr string) {
 	// deliveries released at the same instant as the recipient's Start()
 	gates := 120
 	if thorough {
-		gates = 1500
+		gates = 600
 	}
 	gprs := []pr{
 		{"eddsa-keygen-2", func(s int64) *Net { return eddsaKeygenNet(rand.New(rand.NewSource(s)), 2, 1, partyKeys(rng, 2, 0, q)) }},
@@ -224,7 +224,7 @@ func c09Child(seedStr, thoroughStr string) {
 	}
 	reps := 6
 	if thorough {
-		reps = 40
+		reps = 24
 	}
 	for _, p := range prs {
 		n := reps
@@ -343,7 +343,7 @@ func runC09(r *Run, rng *rand.Rand, thorough bool) {
 	}
 	seeds := 1
 	if thorough {
-		seeds = 3
+		seeds = 2
 	}
 	for s := 0; s < seeds; s++ {
 		cmd := exec.Command(raceBin, "child", "C09", fmt.Sprint(r.Seed+int64(s)), tier)
